@@ -181,7 +181,7 @@ class SMTwist(SMUserList):
             >>> S = Twist3([1,2,3,4,5,6])
             >>> S.unit()
         """
-        return Twist3(base.unitvec(self.S))
+        return Twist3([base.unittwist(x) for x in self.data])
 
     def inv(self):
         """
